@@ -5,6 +5,7 @@ import Bip39V.Model.Reader
 import Bip39V.Model.Seed
 import Bip39V.Model.Stringer
 import Bip39V.Model.Tool
+import Bip39V.Model.GoSem
 import Bip39V.Spec.Bip39
 import Bip39V.Crypto.Sha
 import Bip39V.Crypto.Sha256Spec
@@ -72,6 +73,55 @@ def delivered : Model.Script → Bytes
   | [] => []
   | (bs, none) :: rest => bs ++ delivered rest
   | (bs, some _) :: _ => bs
+
+/-- the Go vocabulary of the translator (`Model/GoSem.lean`) on concrete numbers, so that the harness
+can compare each primitive with the real Go operation -/
+def st0 : Go.St := { pkg := .init, script := [], reads := 0 }
+def showInt (r : Res Int) : String := showRes (fun (i : Int) => toString i) r
+def prim (op : String) (a : List String) : String :=
+  let ints := a.mapM String.toInt?
+  match op, ints with
+  | "wrapI", some [x] => s!"ok {Go.wrapI x}"
+  | "wrapU", some [x] => s!"ok {Go.wrapU x}"
+  | "addI", some [x, y] => s!"ok {Go.addI x y}"
+  | "subI", some [x, y] => s!"ok {Go.subI x y}"
+  | "mulI", some [x, y] => s!"ok {Go.mulI x y}"
+  | "addU", some [x, y] => s!"ok {Go.addU x y}"
+  | "subU", some [x, y] => s!"ok {Go.subU x y}"
+  | "mulU", some [x, y] => s!"ok {Go.mulU x y}"
+  | "divI", some [x, y] => showInt (Go.divI x y st0).1
+  | "remI", some [x, y] => showInt (Go.remI x y st0).1
+  | "divU", some [x, y] => showInt (Go.divU x y st0).1
+  | "remU", some [x, y] => showInt (Go.remU x y st0).1
+  | "divIc", some [x, y] => if y = 0 then "bad-op" else s!"ok {Go.divIc x y}"
+  | "remIc", some [x, y] => if y = 0 then "bad-op" else s!"ok {Go.remIc x y}"
+  | "shlI", some [x, k] => s!"ok {Go.shlI x k}"
+  | "shlU", some [x, k] => s!"ok {Go.shlU x k}"
+  | "toUint", some [x] => s!"ok {Go.toUint x}"
+  | "toInt", some [x] => s!"ok {Go.toInt x}"
+  | "bigAnd", some [x, y] => s!"ok {Go.bigAnd x y}"
+  | "bigAdd", some [x, y] => s!"ok {Go.bigAdd x y}"
+  | "bigLsh", some [x, k] => s!"ok {Go.bigLsh x k}"
+  | "bigCmp", some [x, y] => s!"ok {Go.bigCmp x y}"
+  | "bigQuo", some [x, y] => showInt (Go.bigQuo x y st0).1
+  | "bigInt64", some [x] => s!"ok {Go.bigInt64 x}"
+  | "bigFillBytes", some [x, n] => showRes hexOf (Go.bigFillBytes x (List.replicate n.toNat 0) st0).1
+  | "makeBytes", some [n] => showRes (fun (b : Bytes) => toString b.length) (Go.makeBytes n st0).1
+  | "forDown", some [hi, lo] =>
+    showRes (fun (l : List Int) => " ".intercalate (l.reverse.map toString)) (Go.forDown hi lo ([] : List Int) (fun i acc => Go.pure (i :: acc)) st0).1
+  | _, _ =>
+    match op, a with
+    | "bigSetBytes", [h] => match unhex h with | some b => s!"ok {Go.bigSetBytes b}" | none => "bad-op"
+    | "lenStr", [h] => match strOfHex h with | some t => s!"ok {Go.lenStr t}" | none => "bad-op"
+    | "sliceStr", [h, lo, hi] =>
+      match strOfHex h, lo.toInt?, hi.toInt? with
+      | some t, some lo, some hi => showRes hexOfStr (Go.sliceStr t lo hi st0).1
+      | _, _, _ => "bad-op"
+    | "sliceBytes", [h, lo, hi] =>
+      match unhex h, lo.toInt?, hi.toInt? with
+      | some t, some lo, some hi => showRes hexOf (Go.sliceBytes t lo hi st0).1
+      | _, _, _ => "bad-op"
+    | _, _ => "bad-op"
 
 def answer (line : String) : String :=
   match (line.trimAscii.toString.splitOn " ").filter (· ≠ "") with
@@ -166,6 +216,7 @@ def answer (line : String) : String :=
     match unhex hp, unhex hs, it.toNat?, n.toNat? with
     | some p, some s, some it, some n => s!"M ok {hexOf (Crypto.S512.pbkdf2 p s it n)}\tS ok {hexOf (PB p s it n)}"
     | _, _, _, _ => "bad-op"
+  | "prim" :: op :: args => s!"M {prim op args}\tS -"
   | ["word", l, i] =>     -- the i-th word of the model's list() and of the canonical list
     match l.toInt?, i.toNat? with
     | some ℓ, some i =>
